@@ -32,6 +32,7 @@ Definition subject_of (g : store) (typ : ttype) (t : tokstr) : string :=
   | TRefresh, Raw (RT m) => match find_rt m (rtoks g) with Some r => r_sub r | None => "" end
   | _, Opq _ sub => sub
   | _, Jwt _ _ _ _ sub _ => sub
+  | _, Ext _ sub => sub
   | _, _ => ""
   end.
 
@@ -50,21 +51,28 @@ Definition decided (cl : list client) (g : store) (c : cred) (subj : tokstr) (st
        (match actor with Some (ta, atyp) => subject_of g atyp ta | None => "" end)
        (decided_scopes (policy g) scopes) aud (expired_of cl (cred_id c)).
 
+(* "that token is live at the provider": a JWT the response contains (access token or ID token)
+   is not born expired - unless its client is registered with a negative lifetime, the fixture's
+   way of making expired tokens - and its exp - iat is the lifetime the client is registered with *)
+Definition life_ok (want : trec) (l : tlife) : bool :=
+  match l with TLife expired aslife => Bool.eqb expired (tr_expired want) && aslife end.
+
 (* issued_token_type names what the response holds, and that token is stored as decided *)
 Definition contained (want : trec) (issued : ttype) (access : xtok) (rt : sid) (rt_live : bool)
     (stored : option trec) : bool :=
   let at_ok := match access, stored with
                | XOpaque (AT _) sub, Some t => String.eqb sub (tr_sub want) && trec_eqb t want
                (* a JWT access token also carries the actor the policy decided (act claim) *)
-               | XJwt (AT _) sub actor, Some t =>
+               | XJwt (AT _) sub actor l, Some t =>
                    String.eqb sub (tr_sub want) && String.eqb actor (tr_actor want) && trec_eqb t want
+                   && life_ok want l
                | _, _ => false
                end in
   match issued with
   | TAccess => at_ok
   | TRefresh => at_ok && match rt with RT _ => rt_live | _ => false end
   | TId => match access with
-           | XIdTok sub azp => String.eqb azp (tr_client want) && String.eqb sub (tr_sub want)
+           | XIdTok sub azp l => String.eqb azp (tr_client want) && String.eqb sub (tr_sub want) && life_ok want l
            | _ => false
            end
   | _ => false
@@ -84,7 +92,7 @@ Definition promised (cl : list client) (g : store) (c : cred) (subj : tokstr) (s
          end
   | _ => false
   end
-  && subj_live g styp subj && actor_live g actor && issuable (policy g) req && negb (string_in "veto" scopes).
+  && subj_live false g styp subj && actor_live g actor && issuable (policy g) req && negb (string_in "veto" scopes).
 
 Definition is_error (st : status) : bool :=
   match st with S400 | S401 | S403 | S500 => true | _ => false end.
@@ -93,7 +101,7 @@ Definition check (cl : list client) (g : store) (o : op) (x : out) : bool :=
   match o, x with
   | _, OPanic => false
   | Exchange _ c subj styp actor req scopes aud, OExch issued access rt rt_live sc stored =>
-      client_ok cl c && subj_live g styp subj && actor_live g actor
+      client_ok cl c && subj_live false g styp subj && actor_live g actor
       && issuable (policy g) req && negb (string_in "veto" scopes)
       && strs_eqb sc (decided_scopes (policy g) scopes)
       && contained (decided cl g c subj styp actor scopes aud) issued access rt rt_live stored
